@@ -287,10 +287,10 @@ NOT_APPLICABLE_REASON = "contracts for this property are not built yet in this r
 # contracts added in the second and third build sessions (DESIGN 9.7-9.9), per property
 LATER = {
     "C03": "LiquidError._error_context (the message WARN mode formats) is total for every position inside the source (C20's contract, instantiated here); Parser.parse_block never lowers the depth counter when it refuses a block; the bounded sweep also lays every piece out at the end of a CRLF source and reports non-Liquid exceptions in lax/warn mode. No parse function calls int() on source text (to_int only).",
-    "C07": "a refused assignment leaves the namespace as it was; LimitedStringIO keeps size <= limit as a class invariant (only `write` counts or writes to the base stream; nothing outside the class sets a buffer's size). write() returns the number of characters written for every string.",
+    "C07": "a refused assignment leaves the namespace as it was; LimitedStringIO keeps size <= limit as a class invariant (only `write` counts or writes to the base stream; nothing outside the class sets a buffer's size). write() returns the number of characters written for every string. Nothing outside liquid/context.py stores into a context's locals (the limit lives in assign).",
     "C09": "every token-stream loop leaves from a state at EOF in one step; parse_block's guard aborts in every mode, never lowers the depth counter and restores it when a block completes; the bounded check times adversarial unterminated markup followed by 2.5-8 KB of whitespace (the lexer's patterns used to backtrack polynomially: repaired).",
     "C10": "every opening and every closing delimiter placeholder of every lexer rule may carry a hyphen; the liquid tag's line tokenizer never leaves its loop on a comment or skip line; str.strip(chars) is modelled as a different function from str.strip(). The body group of every verbatim block may be empty; empty raw/comment/doc bodies under all hyphen combinations in the bounded sweep.",
-    "C11": "the liquid tag's line rule accepts `#` and a whole word as a tag name with and without configured comment delimiters, the word alternative before the marker (a genuine defect with custom comment delimiters was repaired).",
+    "C11": "the liquid tag's line rule accepts `#` and a whole word as a tag name with and without configured comment delimiters, the word alternative before the marker (a genuine defect with custom comment delimiters was repaired). The text rule's whitespace-control group follows the alternation of exactly the configured opening delimiters, with and without comment delimiters.",
     "C15": "BlockNode renders every child once, in order, through Node.render / render_async (which check disabled tags), both twins, blank-suppressed or not; structurally, only Node.render calls render_to_output; a block-scoped copy keeps the disabled tags; isolated copies from calling contexts of depth 0..2 incl. partial-in-partial.",
     "C16": "is_undefined per undefined class (strict classes raise through the ABC instance check's read of __class__, default and falsy-strict answer True); get/get_async with the int->str digit limit modelled; array filters with a value argument (where, reject, find, find_index, has) give the default type's result whenever the strict run returns. repr of an undefined depends on its name only (per class); get_implicit_environment is keyed on `undefined`.",
     "C17": "evaluating any expression class never writes the parsed expression (VC per class and presence configuration); interpreter-wide settings (decimal context, locale, warning filters, recursion limit, cwd, environment variables) are never changed; no module-level instance of a stateful class is shared by functions; an Environment is written by its constructor and registration API only. No non-caching loader method stores to the loader; RenderContext.copy/extend/loop/iterations never mutate their arguments in place; alias-following for mutator calls.",
@@ -305,6 +305,9 @@ LATER = {
     "C08": "each resource-limit error raised while a path is resolved propagates through get/get_async; the render tag under a loop limit raises only its own limit errors.",
     "C23": "every answer of load/load_async comes from the cache check; the environment hands the loader the merged globals; cache_key prefers the request argument over the context variable.",
     "C25": "decimal arithmetic shape; array filters (reverse, compact, uniq, concat, first, last, slice, size, default ...) on lists with a concrete spine of 0..3 arbitrary items and with a hash / empty hash / string / number as the left value; sort and sort_natural on records with constant keys (records without the key last); slice against the window-of-positions spec (a genuine defect with negative lengths was repaired). default with allow_false: true (scalars, empty array and hash).",
+    "C12": "BooleanExpression.evaluate is true unless its operand is false, nil or undefined; every if/unless/elsif/ternary condition is built by BooleanExpression.parse; CaseNode renders an else iff every earlier when returned -1 (a match that writes nothing is a match), for every layout of up to 3 blocks; MultiExpressionBlockNode returns -1 iff no when value matched.",
+    "C21": "the bounded verbatim-block sweep also gives the comment tag text after its name.",
+    "C27": "RenderContext.copy gives a macro body globals of exactly [bound arguments, global data], in that order (C15's isolation contract instantiated).",
 }
 
 
@@ -317,8 +320,8 @@ def main():
         if pid in CLAIMS:
             cat, text, tech, ref, note = CLAIMS[pid]
             if pid in LATER:
-                text = text + " Added later (DESIGN 9.7-9.9): " + LATER[pid]
-                ref = ref + "; 9.7-9.9"
+                text = text + " Added later (DESIGN 9.7-9.12): " + LATER[pid]
+                ref = ref + "; 9.7-9.12"
             checks.append(
                 {
                     "property_id": pid,
